@@ -280,10 +280,20 @@ def flatten_settings_records(module_name: str, tree: ast.Module) -> dict[str, di
                 tgt, val = st.targets[0], st.value
             elif isinstance(st, ast.AnnAssign) and st.value is not None:
                 tgt, val = st.target, st.value
-            if not (isinstance(tgt, ast.Attribute) and isinstance(tgt.value, ast.Name) and tgt.value.id == selfn and isinstance(val, ast.Call) and isinstance(val.func, ast.Name)):
+            if not (isinstance(tgt, ast.Attribute) and isinstance(tgt.value, ast.Name) and tgt.value.id == selfn and isinstance(val, ast.Call)):
                 continue
             S = tgt.attr
-            rname = val.func.id if val.func.id in recs else returns.get(val.func.id)
+            if isinstance(val.func, ast.Attribute) and isinstance(val.func.value, ast.Name) and val.func.value.id in recs:
+                # `_Settings.validated(...)`: a factory classmethod / staticmethod of the record class itself
+                rname = val.func.value.id
+                rc = next(c for c in tree.body if isinstance(c, ast.ClassDef) and c.name == rname)
+                fac = next((m_ for m_ in rc.body if isinstance(m_, ast.FunctionDef) and m_.name == val.func.attr), None)
+                if fac is None or not any(ast.unparse(d) in ("classmethod", "staticmethod") for d in fac.decorator_list):
+                    continue
+            elif isinstance(val.func, ast.Name):
+                rname = val.func.id if val.func.id in recs else returns.get(val.func.id)
+            else:
+                continue
             if rname not in recs or S in canon:
                 continue
             if sum(1 for n in stores if n.attr == S) != 1:
